@@ -1,13 +1,145 @@
-// ---- abstract dataset seen by the command layer: (db, key) -> abstract value. This is the ORACLE state for handler
-// contracts; the engine methods' contracts over it are ASSUMED at this level and are what the shard-level units prove
-// per shard (modulo R2 and get_shard routing).
+// ---- ORACLE for the command layer: abstract dataset (db, key) -> abstract value, abstract replies, and one spec
+// function per command giving (reply, dataset afterwards) — "the reply Redis semantics prescribe for the dataset
+// produced by the preceding commands, and the dataset afterwards" (C01/C03), TTLs aside.
 verus! {
 pub enum DV {
     Str(Seq<u8>), List(Seq<Vec<u8>>), Set(Set<Vec<u8>>), Hash(Map<Vec<u8>, Vec<u8>>), ZSet, Stream,
 }
 pub type DS = Map<(int, Seq<u8>), DV>;
 pub open spec fn ds_get(ds: DS, db: int, k: Seq<u8>) -> Option<DV> { if ds.contains_key((db, k)) { Some(ds[(db, k)]) } else { None } }
-pub open spec fn is_str(ds: DS, db: int, k: Seq<u8>) -> bool { ds_get(ds, db, k) matches Some(DV::Str(_)) }
-pub open spec fn absent(ds: DS, db: int, k: Seq<u8>) -> bool { !ds.contains_key((db, k)) }
-pub open spec fn wrong_type_for_str(ds: DS, db: int, k: Seq<u8>) -> bool { ds.contains_key((db, k)) && !(ds[(db, k)] is Str) }
+
+/// abstract reply
+pub enum RV { Int(int), Bulk(Option<Seq<u8>>), Okay, Arr(Seq<Seq<u8>>), ArrSet(Set<Vec<u8>>), WrongType, OtherErr }
+
+// ---- strings
+pub open spec fn spec_append(ds: DS, db: int, k: Seq<u8>, v: Seq<u8>) -> (RV, DS) {
+    match ds_get(ds, db, k) {
+        None => (RV::Int(v.len() as int), ds.insert((db, k), DV::Str(v))),
+        Some(DV::Str(b)) => (RV::Int((b.len() + v.len()) as int), ds.insert((db, k), DV::Str(b + v))),
+        Some(_) => (RV::WrongType, ds),
+    }
+}
+pub open spec fn spec_strlen(ds: DS, db: int, k: Seq<u8>) -> (RV, DS) {
+    match ds_get(ds, db, k) { None => (RV::Int(0), ds), Some(DV::Str(b)) => (RV::Int(b.len() as int), ds), Some(_) => (RV::WrongType, ds) }
+}
+pub open spec fn spec_getrange_cmd(ds: DS, db: int, k: Seq<u8>, start: int, end: int) -> (RV, DS) {
+    match ds_get(ds, db, k) {
+        None => (RV::Bulk(Some(Seq::<u8>::empty())), ds),
+        Some(DV::Str(b)) => (RV::Bulk(Some(spec_getrange(b, start, end))), ds),
+        Some(_) => (RV::WrongType, ds),
+    }
+}
+pub open spec fn spec_setrange_cmd(ds: DS, db: int, k: Seq<u8>, offset: int, v: Seq<u8>) -> (RV, DS) {
+    if offset + v.len() > 536870912 { (RV::OtherErr, ds) } else {
+    match ds_get(ds, db, k) {
+        None => (RV::Int(offset + v.len()), ds.insert((db, k), DV::Str(spec_setrange(Seq::<u8>::empty(), offset, v)))),
+        Some(DV::Str(b)) => (RV::Int(spec_setrange(b, offset, v).len() as int), ds.insert((db, k), DV::Str(spec_setrange(b, offset, v)))),
+        Some(_) => (RV::WrongType, ds),
+    } }
+}
+// ---- lists
+pub open spec fn spec_push(ds: DS, db: int, k: Seq<u8>, e: Seq<Vec<u8>>, left: bool) -> (RV, DS) {
+    match ds_get(ds, db, k) {
+        None => { let l = if left { spec_lpush(Seq::<Vec<u8>>::empty(), e) } else { e }; (RV::Int(l.len() as int), ds.insert((db, k), DV::List(l))) },
+        Some(DV::List(o)) => { let l = if left { spec_lpush(o, e) } else { spec_rpush(o, e) }; (RV::Int(l.len() as int), ds.insert((db, k), DV::List(l))) },
+        Some(_) => (RV::WrongType, ds),
+    }
+}
+pub open spec fn spec_pop(ds: DS, db: int, k: Seq<u8>, left: bool) -> (RV, DS) {
+    match ds_get(ds, db, k) {
+        None => (RV::Bulk(None), ds),
+        Some(DV::List(o)) => if o.len() == 0 { (RV::Bulk(None), ds) } else {
+            let x = if left { o[0] } else { o[o.len() - 1] };
+            let rest = if left { o.subrange(1, o.len() as int) } else { o.subrange(0, o.len() - 1) };
+            (RV::Bulk(Some(x@)), if rest.len() == 0 { ds.remove((db, k)) } else { ds.insert((db, k), DV::List(rest)) }) },
+        Some(_) => (RV::WrongType, ds),
+    }
+}
+pub open spec fn spec_llen(ds: DS, db: int, k: Seq<u8>) -> (RV, DS) {
+    match ds_get(ds, db, k) { None => (RV::Int(0), ds), Some(DV::List(o)) => (RV::Int(o.len() as int), ds), Some(_) => (RV::WrongType, ds) }
+}
+pub open spec fn spec_lindex(ds: DS, db: int, k: Seq<u8>, index: int) -> (RV, DS) {
+    match ds_get(ds, db, k) {
+        None => (RV::Bulk(None), ds),
+        Some(DV::List(o)) => (match spec_index(o.len() as int, index) { Some(i) => RV::Bulk(Some(o[i]@)), None => RV::Bulk(None) }, ds),
+        Some(_) => (RV::WrongType, ds),
+    }
+}
+pub open spec fn spec_lset(ds: DS, db: int, k: Seq<u8>, index: int, v: Vec<u8>) -> (RV, DS) {
+    match ds_get(ds, db, k) {
+        None => (RV::OtherErr, ds),
+        Some(DV::List(o)) => match spec_index(o.len() as int, index) { Some(i) => (RV::Okay, ds.insert((db, k), DV::List(o.update(i, v)))), None => (RV::OtherErr, ds) },
+        Some(_) => (RV::WrongType, ds),
+    }
+}
+pub open spec fn spec_range_seq<T>(o: Seq<T>, start: int, stop: int) -> Seq<T> {
+    match spec_range(o.len() as int, start, stop) { Some((a, b)) => o.subrange(a, b + 1), None => Seq::<T>::empty() }
+}
+pub open spec fn spec_lrange(ds: DS, db: int, k: Seq<u8>, start: int, stop: int) -> (RV, DS) {
+    match ds_get(ds, db, k) {
+        None => (RV::Arr(Seq::<Seq<u8>>::empty()), ds),
+        Some(DV::List(o)) => (RV::Arr(spec_range_seq(o, start, stop).map_values(|x: Vec<u8>| x@)), ds),
+        Some(_) => (RV::WrongType, ds),
+    }
+}
+pub open spec fn spec_ltrim(ds: DS, db: int, k: Seq<u8>, start: int, stop: int) -> (RV, DS) {
+    match ds_get(ds, db, k) {
+        None => (RV::Okay, ds),
+        Some(DV::List(o)) => { let r = spec_range_seq(o, start, stop); (RV::Okay, if r.len() == 0 { ds.remove((db, k)) } else { ds.insert((db, k), DV::List(r)) }) },
+        Some(_) => (RV::WrongType, ds),
+    }
+}
+}
+verus! {
+// ---- sets
+pub open spec fn vecs_set(e: Seq<Vec<u8>>) -> Set<Vec<u8>> { e.to_set() }
+pub open spec fn spec_sadd(ds: DS, db: int, k: Seq<u8>, e: Seq<Vec<u8>>) -> (RV, DS) {
+    match ds_get(ds, db, k) {
+        None => (RV::Int(vecs_set(e).len() as int), ds.insert((db, k), DV::Set(vecs_set(e)))),
+        Some(DV::Set(m)) => (RV::Int((m.union(vecs_set(e)).len() - m.len()) as int), ds.insert((db, k), DV::Set(m.union(vecs_set(e))))),
+        Some(_) => (RV::WrongType, ds),
+    }
+}
+pub open spec fn spec_sismember(ds: DS, db: int, k: Seq<u8>, m: Seq<u8>) -> (RV, DS) {
+    match ds_get(ds, db, k) {
+        None => (RV::Int(0), ds),
+        Some(DV::Set(s)) => (RV::Int(if s.contains(key_of(m)) { 1int } else { 0int }), ds),
+        Some(_) => (RV::WrongType, ds),
+    }
+}
+pub open spec fn spec_scard(ds: DS, db: int, k: Seq<u8>) -> (RV, DS) {
+    match ds_get(ds, db, k) { None => (RV::Int(0), ds), Some(DV::Set(s)) => (RV::Int(s.len() as int), ds), Some(_) => (RV::WrongType, ds) }
+}
+pub open spec fn spec_smembers(ds: DS, db: int, k: Seq<u8>) -> (RV, DS) {
+    match ds_get(ds, db, k) { None => (RV::ArrSet(Set::<Vec<u8>>::empty()), ds), Some(DV::Set(s)) => (RV::ArrSet(s), ds), Some(_) => (RV::WrongType, ds) }
+}
+// ---- hashes
+pub open spec fn spec_hget(ds: DS, db: int, k: Seq<u8>, f: Seq<u8>) -> (RV, DS) {
+    match ds_get(ds, db, k) {
+        None => (RV::Bulk(None), ds),
+        Some(DV::Hash(h)) => (if h.contains_key(key_of(f)) { RV::Bulk(Some(h[key_of(f)]@)) } else { RV::Bulk(None) }, ds),
+        Some(_) => (RV::WrongType, ds),
+    }
+}
+pub open spec fn spec_hlen(ds: DS, db: int, k: Seq<u8>) -> (RV, DS) {
+    match ds_get(ds, db, k) { None => (RV::Int(0), ds), Some(DV::Hash(h)) => (RV::Int(h.dom().len() as int), ds), Some(_) => (RV::WrongType, ds) }
+}
+pub open spec fn spec_hexists(ds: DS, db: int, k: Seq<u8>, f: Seq<u8>) -> (RV, DS) {
+    match ds_get(ds, db, k) {
+        None => (RV::Int(0), ds),
+        Some(DV::Hash(h)) => (RV::Int(if h.contains_key(key_of(f)) { 1int } else { 0int }), ds),
+        Some(_) => (RV::WrongType, ds),
+    }
+}
+pub open spec fn spec_hincrby(ds: DS, db: int, k: Seq<u8>, f: Vec<u8>, inc: i64) -> (RV, DS) {
+    match ds_get(ds, db, k) {
+        None => (RV::Int(inc as int), ds.insert((db, k), DV::Hash(Map::<Vec<u8>, Vec<u8>>::empty().insert(f, key_of(i64_str(inc)))))),
+        Some(DV::Hash(h)) => if !h.contains_key(f) { (RV::Int(inc as int), ds.insert((db, k), DV::Hash(h.insert(f, key_of(i64_str(inc)))))) } else {
+            match spec_parse_i64(h[f]@) {
+                None => (RV::OtherErr, ds),
+                Some(cur) => if i64::MIN <= cur + inc <= i64::MAX { (RV::Int(cur + inc), ds.insert((db, k), DV::Hash(h.insert(f, key_of(i64_str((cur + inc) as i64)))))) } else { (RV::OtherErr, ds) },
+            } },
+        Some(_) => (RV::WrongType, ds),
+    }
+}
 }
